@@ -102,6 +102,9 @@ def newLexer (input path : List UInt8) : Lexer :=
 def setFault (f : Fault) (l : Lexer) : Lexer :=
   if l.fault = .none then { l with fault := f } else l
 
+/-- assignment of the next state (`return lexX`) -/
+def setState (s : LState) (l : Lexer) : Lexer := { l with state := s }
+
 /-- `consume` -/
 def consume (l : Lexer) : Lexer := { l with start := l.pos }
 
@@ -139,7 +142,9 @@ def backup (l : Lexer) : Lexer :=
   else l'
 
 /-- `peek` -/
-def peek (l : Lexer) : Nat × Lexer := ((next l).1, backup (next l).2)
+def peek (l : Lexer) : Nat × Lexer :=
+  let p := next l
+  (p.1, backup p.2)
 
 /-- `strings.ContainsRune(" \t\r\n", r)` -/
 def isSpaceRune (r : Nat) : Bool := r = 32 || r = 9 || r = 13 || r = 10
@@ -148,11 +153,13 @@ def isSpaceRune (r : Nat) : Bool := r = 32 || r = 9 || r = 13 || r = 10
 def acceptRunLoop : Nat → Bool → Lexer → Bool × Lexer
   | 0, ret, l => (ret, setFault .outOfFuel l)
   | f + 1, ret, l =>
-    if isSpaceRune (next l).1 then acceptRunLoop f true (next l).2 else (ret, (next l).2)
+    let p := next l
+    if isSpaceRune p.1 then acceptRunLoop f true p.2 else (ret, p.2)
 
 /-- `acceptRun(" \t\r\n")` -/
 def acceptRun (l : Lexer) : Bool × Lexer :=
-  ((acceptRunLoop (l.rest.length + 1) false l).1, backup (acceptRunLoop (l.rest.length + 1) false l).2)
+  let p := acceptRunLoop (l.rest.length + 1) false l
+  (p.1, backup p.2)
 
 /-- `strings.Index(s, pat)` -/
 def indexOf (pat : List UInt8) : List UInt8 → Option Nat
@@ -164,21 +171,30 @@ def indexOf (pat : List UInt8) : List UInt8 → Option Nat
 /-- `s[strings.LastIndex(s, "\n")+1:]` -/
 def afterLastNL (s : List UInt8) : List UInt8 := (s.reverse.takeWhile (· != 10)).reverse
 
+/-- body of the `for _, r := range …` loop of `updateCursor` -/
+def cursorStep (l : Lexer) (r : Nat) : Lexer :=
+  if r = 9 then { l with col := l.col + 1, tcol := (l.tcol + 8) / 8 * 8 }
+  else { l with col := l.col + 1, tcol := l.tcol + 1 }
+
 /-- `updateCursor` (repaired: keeps `tcol`) -/
 def updateCursor (n : Nat) (l : Lexer) : Lexer :=
   let s := l.rest.take n
   let l := { l with before := s.reverse ++ l.before, rest := l.rest.drop n, width := n }
   let c := s.count 10
   let l := if c > 0 then { l with line := l.line + c, col := 0, tcol := 0 } else l
-  (runes (afterLastNL s)).foldl
-    (fun l r => if r = 9 then { l with col := l.col + 1, tcol := (l.tcol + 8) / 8 * 8 }
-                else { l with col := l.col + 1, tcol := l.tcol + 1 }) l
+  (runes (afterLastNL s)).foldl cursorStep l
 
 /-- `skipTo` -/
 def skipTo (pat : List UInt8) (l : Lexer) : Bool × Lexer :=
   match indexOf pat l.rest with
   | some x => (true, updateCursor x l)
   | none => (false, l)
+
+theorem skipTo_false (pat : List UInt8) (l : Lexer) (h : (skipTo pat l).1 = false) : (skipTo pat l).2 = l := by
+  unfold skipTo at *
+  split at h
+  · cases h
+  · rfl
 
 def tooManyLine : ErrLine := { file := [], pos := none, cls := .tooMany }
 
@@ -201,50 +217,75 @@ def errorfAt (line col : Int) (cls : ErrClass) (l : Lexer) : Lexer :=
   let l := errorf cls { l with line := line, col := col }
   { l with line := oline, col := ocol }
 
-/-- `lexGround`; the returned lexer carries the next state -/
-def lexGround (l : Lexer) : Lexer :=
-  let (_, l) := acceptRun l
+/-- `lexGround`, first four lines: skip white space, `consume`, note where the token starts -/
+def groundStart (l : Lexer) : Lexer :=
+  let l := (acceptRun l).2
   let l := consume l
-  let l := { l with sline := l.line, scol := l.col }
-  let (c, l) := peek l
-  if c = eofRune then { l with state := .done }
+  { l with sline := l.line, scol := l.col }
+
+/-- `lexGround`, `case '\''` (the cursor is before the quote) -/
+def groundSQuote (l : Lexer) : Lexer :=
+  let l := (next l).2
+  let l := consume l
+  let p := skipTo [39] l
+  if p.1 then
+    let l := p.2
+    let l := emit .string l
+    let l := (next l).2
+    setState .ground (l)
+  else
+    let l := p.2
+    setState .done (errorfAt l.line (l.col - 1) .missingSQuote l)
+
+/-- `lexGround`, `case '/'` -/
+def groundSlash (l : Lexer) : Lexer :=
+  let l := (next l).2
+  let p := peek l
+  let c2 := p.1
+  let l := p.2
+  if c2 = 47 then
+    let p := skipTo [10] l
+    if p.1 then setState .ground (p.2)
+    else
+      let l := p.2
+      setState .done (errorfAt l.line (l.col - 1) .noNewline l)
+  else if c2 = 42 then
+    let l := (next l).2
+    let p := skipTo [42, 47] l
+    if p.1 then
+      let l := p.2
+      let l := (next l).2
+      let l := (next l).2
+      setState .ground (l)
+    else
+      let l := p.2
+      setState .done (errorfAt l.line (l.col - 2) .missingCommentEnd l)
+  else setState .unquoted (l)
+
+/-- `lexGround`, `case '+'` -/
+def groundPlus (l : Lexer) : Lexer :=
+  let l := (next l).2
+  let p := peek l
+  let c2 := p.1
+  let l := p.2
+  if c2 = 34 || c2 = 39 then setState .ground (emit .unquoted l)
+  else setState .unquoted (l)
+
+/-- `lexGround`; the returned lexer carries the next state (the cases of the `switch` that are
+longer than a line are the functions above) -/
+def lexGround (l : Lexer) : Lexer :=
+  let l := groundStart l
+  let p := peek l
+  let c := p.1
+  let l := p.2
+  if c = eofRune then setState .done (l)
   else if c = 59 || c = 123 || c = 125 then
-    let (_, l) := next l
-    { emit (.punct (UInt8.ofNat c)) l with state := .ground }
-  else if c = 39 then
-    let (_, l) := next l
-    let l := consume l
-    match skipTo [39] l with
-    | (false, l) => { errorfAt l.line (l.col - 1) .missingSQuote l with state := .done }
-    | (true, l) =>
-      let l := emit .string l
-      let (_, l) := next l
-      { l with state := .ground }
-  else if c = 34 then
-    let (_, l) := next l
-    { l with state := .qstring }
-  else if c = 47 then
-    let (_, l) := next l
-    let (c2, l) := peek l
-    if c2 = 47 then
-      match skipTo [10] l with
-      | (false, l) => { errorfAt l.line (l.col - 1) .noNewline l with state := .done }
-      | (true, l) => { l with state := .ground }
-    else if c2 = 42 then
-      let (_, l) := next l
-      match skipTo [42, 47] l with
-      | (false, l) => { errorfAt l.line (l.col - 2) .missingCommentEnd l with state := .done }
-      | (true, l) =>
-        let (_, l) := next l
-        let (_, l) := next l
-        { l with state := .ground }
-    else { l with state := .unquoted }
-  else if c = 43 then
-    let (_, l) := next l
-    let (c2, l) := peek l
-    if c2 = 34 || c2 = 39 then { emit .unquoted l with state := .ground }
-    else { l with state := .unquoted }
-  else { l with state := .unquoted }
+    setState .ground (emit (.punct (UInt8.ofNat c)) (next l).2)
+  else if c = 39 then groundSQuote l
+  else if c = 34 then setState .qstring ((next l).2)
+  else if c = 47 then groundSlash l
+  else if c = 43 then groundPlus l
+  else setState .unquoted (l)
 
 /-- the trailing-blank trimming loop of `lexQString` (on bytes) -/
 def trimTrailing (text : List UInt8) : List UInt8 :=
@@ -256,9 +297,11 @@ byte or meets the end of input and stops; clearing the input only shortens it). 
 def qstringLoop (indent line col : Int) : Nat → List UInt8 → Bool → Lexer → Lexer
   | 0, _, _, l => setFault .outOfFuel l
   | f + 1, text, over, l =>
-    let (c, l) := next l
-    if c = eofRune then { errorfAt line col .missingDQuote l with state := .done }
-    else if c = 34 then { emitText .string text l with state := .ground }
+    let p := next l
+    let c := p.1
+    let l := p.2
+    if c = eofRune then setState .done (errorfAt line col .missingDQuote l)
+    else if c = 34 then setState .ground (emitText .string text l)
     else if c = 10 then qstringLoop indent line col f (trimTrailing text ++ encodeRune c) false l
     else if c = 32 || c = 9 then
       if !over && l.tcol ≤ indent then qstringLoop indent line col f text over l
@@ -266,7 +309,9 @@ def qstringLoop (indent line col : Int) : Nat → List UInt8 → Bool → Lexer 
     else if c = 92 then
       let eline := l.line
       let ecol := l.col - 1
-      let (c, l) := next l
+      let p := next l
+      let c := p.1
+      let l := p.2
       if c = 110 then qstringLoop indent line col f (text ++ encodeRune 10) true l
       else if c = 116 then qstringLoop indent line col f (text ++ encodeRune 9) true l
       else if c = 34 || c = 92 then qstringLoop indent line col f (text ++ encodeRune c) true l
@@ -287,11 +332,9 @@ def isUnqDelim (c : Nat) : Bool :=
 def unquotedLoop : Nat → Lexer → Lexer
   | 0, l => setFault .outOfFuel l
   | f + 1, l =>
-    let (c, l) := peek l
-    if isUnqDelim c then { emit .unquoted l with state := .ground }
-    else
-      let (_, l) := next l
-      unquotedLoop f l
+    let p := peek l
+    if isUnqDelim p.1 then setState .ground (emit .unquoted p.2)
+    else unquotedLoop f (next p.2).2
 
 def lexUnquoted (l : Lexer) : Lexer := unquotedLoop (l.rest.length + 1) l
 
